@@ -17,6 +17,7 @@ class SQLParser(Parser):
         ('right', UNOT),
         ('left', EQUALS, NEQUALS),
         ('nonassoc', LESS, LEQ, GREATER, GEQ, IN, BETWEEN, IS, IS_NOT, LIKE),
+        ('left', CONCAT),
         ('left', PLUS, MINUS),
         ('left', STAR, DIVIDE, MODULO),
         ('right', UMINUS),  # Unary minus operator, unary not
